@@ -276,10 +276,7 @@ func jpegFiller(t *rapid.T, i int, pos int) build.Seg {
 	}
 	d := make([]byte, ln)
 	for k := range d {
-		d[k] = byte(k*13 + i)
-		if d[k] == 0xFF {
-			d[k] = 0xFE
-		}
+		d[k] = byte(k*13 + i) // includes 0xFF, 0xFF 0xD8 .. 0xFF 0xDA look-alikes: payloads are length-delimited
 	}
 	return build.Seg{Marker: marker, Data: d}
 }
